@@ -30,7 +30,9 @@ def gen_job(verif_seed, tier, index):
     job, st = jobgen.base_job(PROP, verif_seed, tier, index, PROFILE)
     g = st.gen
     t = st.tape
-    if g.random() < 0.35:
+    if g.random() < 0.1:
+        jobgen.make_restart_job(job, g, alias=False)   # diblock (two residue types) whose numbers start again with the second block
+    elif g.random() < 0.35:
         jobgen.add_resname_clash(job, g)
     if g.random() < 0.35:
         jobgen.add_user_templates(job, g, allow_vs=True)
